@@ -308,7 +308,7 @@ func TestCheck(t *testing.T) {
 	}
 	r.Count("definitions_total", len(sc.Order))
 	r.Count("definitions_encodable", len(sc.Encodable()))
-	r.Count("types_covered", len(sc.Encodable())-len(skipped)+goOnly)
+	r.Count("types_covered", len(sc.Encodable())-(len(skipped)-goOnly))
 	r.Count("skipped_types", len(skipped))
 	r.Count("pairs_total", pairsTotal)
 	r.Count("pairs_covered", len(jobs))
